@@ -7,6 +7,7 @@ import CfbVerif.Props.C01
 import CfbVerif.Phys.NoShare
 import CfbVerif.Phys.NoShareMini
 import CfbVerif.Phys.NoLeak
+import CfbVerif.Phys.NoLeakMini
 /-!
 # C03 — every produced image is a well-formed MS-CFB file by an independent checker
 
@@ -45,6 +46,8 @@ Proved here are the allocator facts behind "at most one chain" and "marked as su
   in the same states every FAT cell that says END or holds a pointer lies on the chain of exactly
   one owner (no leaks, no sharing), and the library's chain walk from every owner's start sector
   succeeds and returns that chain, without repetition.
+  `C03_every_used_mini_sector_owned_once`, `C03_mini_owner_walks_succeed` (`Phys/NoLeakMini.lean`):
+  the same for the MiniFAT, the mini sectors and the streams below 4096 bytes.
   What is *not* proved is the step from the API to that machine: that the lengths `physOf` hands to
   the stream operations are the directory's stream lengths (lock-stepped, and judged by
   `Spec.check` on every image of the campaign);
@@ -220,6 +223,33 @@ theorem C03_owner_walks_succeed (v4 : Bool) (ops : List GOp) :
   have j := noLeak_reachable v4 ops hb
   obtain ⟨l, cl⟩ := j.nc.ch h hh
   refine ⟨l, chainFrom_of_isChain j.nc.ns hh cl, cl.nodup j.nc.ns hh, ?_, cl.used⟩
+  obtain ⟨t, e⟩ := cl.head
+  rw [e]; rfl
+
+/-- **every mini sector in use belongs to exactly one stream below the cutoff** -/
+theorem C03_every_used_mini_sector_owned_once (v4 : Bool) (ops : List GOp)
+    (hb : MiniBounded { p := Phys.create v4, L := fun _ => 0 } ops) :
+    let g := grun { p := Phys.create v4, L := fun _ => 0 } ops
+    ∀ x w : Nat, g.p.miniFat[x]? = some w → (w = END ∨ w ≤ MAXREG) →
+      ∃ h ∈ mregs g.p.starts g.L, (∃ l, IsChain g.p.miniFat h l ∧ x ∈ l) ∧
+        ∀ h' ∈ mregs g.p.starts g.L, (∃ l', IsChain g.p.miniFat h' l' ∧ x ∈ l') → h' = h := by
+  intro g x w hx hw
+  have j := noLeakMini_reachable v4 ops hb
+  obtain ⟨h, hh, l, cl, hxl⟩ := j.nc.cov x w hx hw
+  refine ⟨h, hh, ⟨l, cl, hxl⟩, ?_⟩
+  intro h' hh' ⟨l', cl', hxl'⟩
+  exact IsChain.disjoint j.nc.ns hh' hh cl' cl hxl' hxl
+
+/-- **the mini chain walk of every stream below the cutoff succeeds** and returns a list without
+repetition that begins at the stream's start mini sector -/
+theorem C03_mini_owner_walks_succeed (v4 : Bool) (ops : List GOp)
+    (hb : MiniBounded { p := Phys.create v4, L := fun _ => 0 } ops) :
+    let g := grun { p := Phys.create v4, L := fun _ => 0 } ops
+    ∀ h ∈ mregs g.p.starts g.L, ∃ l, miniChainIds g.p h = .ok l ∧ l.Nodup ∧ l.head? = some h := by
+  intro g h hh
+  have j := noLeakMini_reachable v4 ops hb
+  obtain ⟨l, cl⟩ := j.nc.ch h hh
+  refine ⟨l, chainFrom_of_isChain j.nc.ns hh cl, cl.nodup j.nc.ns hh, ?_⟩
   obtain ⟨t, e⟩ := cl.head
   rw [e]; rfl
 
